@@ -286,13 +286,16 @@ def run_coq_cases(prop, imports, exprs, shard=400, timeout=900):
     while pending or running:
         while pending and len(running) < NPROC:
             fn = pending.pop(0)
-            p = subprocess.Popen(f"ulimit -s unlimited 2>/dev/null; timeout {timeout} coqc -Q theories PV -Q run/{prop} PVRun{prop} {os.path.relpath(fn, COQ)}",
-                                 shell=True, cwd=COQ, stdout=subprocess.PIPE, stderr=subprocess.STDOUT, text=True)
+            outf = open(fn + ".out", "w")
+            p = subprocess.Popen(f"ulimit -s unlimited 2>/dev/null; timeout {timeout} coqc -w -abstract-large-number -Q theories PV -Q run/{prop} PVRun{prop} {os.path.relpath(fn, COQ)}",
+                                 shell=True, cwd=COQ, stdout=outf, stderr=subprocess.STDOUT, text=True)
+            p._outf = outf
             running.append((fn, p))
         time.sleep(0.05)
         for fn, p in list(running):
             if p.poll() is not None:
-                outputs[fn] = (p.returncode, p.stdout.read())
+                p._outf.close()
+                outputs[fn] = (p.returncode, open(fn + ".out", errors="replace").read())
                 running.remove((fn, p))
     for fn in files:
         rc, out = outputs[fn]
